@@ -388,6 +388,13 @@ def _emit_fn(g, source, a, blocks, vacuity, probe_insert=None):
     f.orig = it.text
     rules = f.rules
     sig_src, body_src = it.sig_text, it.body_text
+    if a.get("macro_vars"):
+        # the function is generated by a macro_rules! definition: its metavariables are bound as the unit says
+        # (`$len=N`: a const generic parameter of the impl the unit wraps the function in)
+        for kv in a["macro_vars"].split(","):
+            mk, _, mv = kv.partition("=")
+            sig_src = sig_src.replace(mk.strip(), mv.strip()); body_src = body_src.replace(mk.strip(), mv.strip())
+        rules.append(("R28", f"macro-generated function: metavariables bound ({a['macro_vars']})"))
     if a.get("bind"):
         from rsx import rebind_locals
         body_src = rebind_locals(body_src, a["bind"], f.name, rules)
